@@ -54,7 +54,7 @@
 static const char *g_target = "?";
 static volatile unsigned g_sink;
 static unsigned long g_parse_ok, g_runs;
-static int g_verbose;
+static int g_verbose, g_skip_empty;
 #define PARSED() (g_parse_ok++)
 
 static void wfail(const char *what)
@@ -1157,6 +1157,10 @@ int LLVMFuzzerInitialize(int *argc, char ***argv)
     (void) argv;
     select_target(getenv("C09_TARGET"));
     g_verbose = getenv("C09_VERBOSE") != NULL;
+    /* libFuzzer always executes the empty input first; the driver replays an
+       explicit empty seed once per target and sets this for the mutation phase
+       so that a known defect on the empty input does not mask everything else */
+    g_skip_empty = getenv("C09_SKIP_EMPTY") != NULL;
     atexit(print_stats);
     if (matrixSslOpen() < 0)
     {
@@ -1170,7 +1174,7 @@ int LLVMFuzzerTestOneInput(const uint8_t *d, size_t n)
 {
     unsigned char *in;
 
-    if (n > 65536)
+    if (n > 65536 || (n == 0 && g_skip_empty))
     {
         return 0;
     }
